@@ -13,6 +13,9 @@ import time
 import traceback
 
 VERIF = os.path.dirname(os.path.dirname(os.path.abspath(__file__)))
+# development aid for trying the checks on patched scratch copies of the repository in parallel: evidence and replay files
+# go to $PYVC_OUT instead of /verif (registered commands never set it)
+OUT = os.environ.get("PYVC_OUT", VERIF)
 
 
 def _setup_paths():
@@ -51,7 +54,7 @@ def _worker(args):
     from .ops import Unsupported
     from . import smt
     from .obl import Obligation
-    out = {"target": tname, "obligations": [], "assumptions": [], "error": None, "stats": {}}
+    out = {"target": tname, "obligations": [], "assumptions": [], "error": None, "stats": {}, "bounded_used": []}
     try:
         mod = load_property(pid)
         eng = Engine()
@@ -63,6 +66,7 @@ def _worker(args):
             eng.obligations.append(Obligation(id=f"{pid}/{tname}/supported", property=pid, kind="auxiliary", status="unsupported",
                                               goal="the generator can translate everything this target depends on",
                                               function=tname, detail=str(e)))
+        out["bounded_used"] = list(getattr(eng, "bounded_used", []))
         out["obligations"] = [o.to_json() for o in eng.obligations]
         out["assumptions"] = sorted(eng.assumptions_used)
         out["stats"] = dict(smt.STATS)
@@ -137,7 +141,7 @@ def decide(pid, tier, seed, mod, targets, results, opts, t_start):
         for k in stats:
             stats[k] += r["stats"].get(k, 0)
     by_target = {t.name: t for t in targets}
-    os.makedirs(os.path.join(VERIF, "out", "replay"), exist_ok=True)
+    os.makedirs(os.path.join(OUT, "out", "replay"), exist_ok=True)
     violations = []
     known_hit = []
     undecided = []
@@ -208,7 +212,7 @@ def decide(pid, tier, seed, mod, targets, results, opts, t_start):
         errors.append(("vacuity", "zero obligations generated"))
     for o in violations:
         import hashlib
-        rp = os.path.join(VERIF, "out", "replay", f"{pid}-{hashlib.sha1(o['id'].encode()).hexdigest()[:10]}.json")
+        rp = os.path.join(OUT, "out", "replay", f"{pid}-{hashlib.sha1(o['id'].encode()).hexdigest()[:10]}.json")
         with open(rp, "w") as f:
             json.dump({"property": pid, "obligation": o["id"], "kind": o["kind"], "goal": o["goal"], "function": o["function"],
                        "path": o["path"], "model": o["model"], "solver": o["backend"], "detail": o["detail"], "replay": o.get("replay")}, f, indent=1, default=str)
@@ -229,7 +233,10 @@ def decide(pid, tier, seed, mod, targets, results, opts, t_start):
     for o in degraded:
         lines.append(f"DEGRADED obligation={o['id']} status={o['status']}: proof step failed, bounded search found no failing input")
     # evidence
-    proved_all = (n_dis == n_total and n_total > 0 and not known_hit and not errors and not violations)
+    bounded_used = sorted({b for r in results for b in r.get("bounded_used", [])})
+    for b in bounded_used:
+        lines.append(f"BOUNDED: {b} (not counted as proved)")
+    proved_all = (n_dis == n_total and n_total > 0 and not known_hit and not errors and not violations and not bounded_used)
     level = getattr(mod, "LEVEL", "proof") if proved_all else "other"
     samples = [{k: o[k] for k in ("id", "kind", "status", "backend", "ms", "goal", "path")} for o in mine[:6]]
     non = [{k: o[k] for k in ("id", "kind", "status", "backend", "detail", "model")} for o in mine if o["status"] != "discharged"][:10]
@@ -255,7 +262,7 @@ def decide(pid, tier, seed, mod, targets, results, opts, t_start):
         "degraded_to_bounded": [o["id"] for o in degraded],
         "undecided": [o["id"] for o in undecided],
         "dropped_by_extraction": DROPPED,
-        "bounded": getattr(mod, "BOUNDED", []),
+        "bounded": list(getattr(mod, "BOUNDED", [])) + [{"engine": "pyvc bounded unrolling", "what": b} for b in bounded_used],
         "bounded_standin_checks": {"run": len(standins), "passed": sum(1 for o in standins if o["status"] == "discharged"),
                                     "note": "bounded stand-ins, not counted in obligations/discharged"},
         "explanation": explanation or (
@@ -270,8 +277,8 @@ def decide(pid, tier, seed, mod, targets, results, opts, t_start):
         "assumptions": sorted(assumptions) + list(getattr(mod, "NOT_DECIDED", [])),
         "wall_s": round(time.time() - t_start, 3), "violations": len(violations),
     }
-    os.makedirs(os.path.join(VERIF, "evidence"), exist_ok=True)
-    with open(os.path.join(VERIF, "evidence", f"{pid}.json"), "w") as f:
+    os.makedirs(os.path.join(OUT, "evidence"), exist_ok=True)
+    with open(os.path.join(OUT, "evidence", f"{pid}.json"), "w") as f:
         json.dump(ev, f, indent=1, default=str)
     lines.append(f"{pid} tier={tier}: obligations={n_total} discharged={n_dis} violations={len(violations)} known={len(known_hit)} "
                  f"undecided={len(undecided)} degraded={len(degraded)} errors={len(errors)} wall={ev['wall_s']}s exit={code}")
